@@ -18,6 +18,7 @@ import (
 	"verif/ev"
 	"verif/mcx"
 	"verif/vrt"
+	"verif/worlds/udpw"
 )
 
 // The REAL udp/server.Session (the session type behind udp.Dial / udp.Client and DTLS-less server
@@ -26,55 +27,88 @@ import (
 // and by context cancellation.
 
 type ucfg struct {
+	DTLS    bool   // the real dtls/server.Session over a datagram-preserving in-memory net.Conn instead of udp/server.Session
 	Op      string // do | observe | ping | idle | full-queue (handler busy, receive queue full, reader loop parked in Process)
 	Intr    string // cancel | close2 | read-error
 	Preempt int
 }
 
 func (c ucfg) String() string {
-	return fmt.Sprintf("udp-session op=%s interrupt=%s preempt<=%d", c.Op, c.Intr, c.Preempt)
+	t := "udp"
+	if c.DTLS {
+		t = "dtls"
+	}
+	return fmt.Sprintf("%s-session op=%s interrupt=%s preempt<=%d", t, c.Op, c.Intr, c.Preempt)
 }
 
 func udpSessionScenario(c ucfg) *mcx.Scenario {
 	return &mcx.Scenario{
 		Name:        c.String(),
 		Bounds:      mcx.Bounds{Preempt: c.Preempt, Env: -1, Select: 0},
-		DeadlockSig: "blocked-forever/udp-session-" + c.Op + "/" + c.Intr,
+		DeadlockSig: "blocked-forever/" + map[bool]string{false: "udp", true: "dtls"}[c.DTLS] + "-session-" + c.Op + "/" + c.Intr,
 		Body: func(s *vrt.Sched) func() (string, []mcx.Finding) {
 			var fs []mcx.Finding
 			result := "not-returned"
 			returned, runDone := false, false
+			runDoneF := func() bool { return runDone }
 			onClose := 0
 			var cc *client.Conn
 			var sock *net.UDPConn
 			vrt.App("setup", func() {
-				var err error
-				sock, err = net.ListenUDP("udp4", &net.UDPAddr{IP: net.IPv4(127, 0, 0, 1)})
-				if err != nil {
-					panic(err)
-				}
-				l, pc := coapNet.NewUDPConnVerif(sock, nil)
-				raddr := &net.UDPAddr{IP: net.IPv4(10, 0, 0, 1), Port: 5683}
-				session := udpserver.NewSession(context.Background(), context.Background(), l, raddr, 1472, 1472, true)
-				cfg := client.DefaultConfig
-				cfg.MessagePool = pool.New(0, 0)
-				cfg.Errors = func(error) {}
-				cfg.PeriodicRunner = func(func(time.Time) bool) {}
-				mid := int32(100)
-				cfg.GetMID = func() int32 { mid++; return mid }
-				cfg.LimitClientParallelRequests, cfg.LimitClientEndpointParallelRequests = 2, 2
 				handlerGo, handlerRuns := false, 0
-				if c.Op == "full-queue" {
-					cfg.ReceivedMessageQueueSize = 1
-					cfg.Handler = func(*responsewriter.ResponseWriter[*client.Conn], *pool.Message) {
-						handlerRuns++
-						vrt.WaitUntil("application handler busy", func() bool { return handlerGo })
+				var pc *coapNet.VerifPacketConn
+				var dw *udpw.World
+				raddr := &net.UDPAddr{IP: net.IPv4(10, 0, 0, 1), Port: 5683}
+				handler := func(*responsewriter.ResponseWriter[*client.Conn], *pool.Message) {
+					handlerRuns++
+					vrt.WaitUntil("application handler busy", func() bool { return handlerGo })
+				}
+				if c.DTLS {
+					o := udpw.Opts{LimitTotal: 2, LimitEndpoint: 2, QueueSize: 16, DTLS: true}
+					if c.Op == "full-queue" {
+						o.QueueSize, o.Handler = 1, handler
+					}
+					dw = udpw.New(o)
+					cc = dw.CC
+					runDoneF = func() bool { return dw.RunDone }
+				} else {
+					var err error
+					sock, err = net.ListenUDP("udp4", &net.UDPAddr{IP: net.IPv4(127, 0, 0, 1)})
+					if err != nil {
+						panic(err)
+					}
+					var l *coapNet.UDPConn
+					l, pc = coapNet.NewUDPConnVerif(sock, nil)
+					session := udpserver.NewSession(context.Background(), context.Background(), l, raddr, 1472, 1472, true)
+					cfg := client.DefaultConfig
+					cfg.MessagePool = pool.New(0, 0)
+					cfg.Errors = func(error) {}
+					cfg.PeriodicRunner = func(func(time.Time) bool) {}
+					mid := int32(100)
+					cfg.GetMID = func() int32 { mid++; return mid }
+					cfg.LimitClientParallelRequests, cfg.LimitClientEndpointParallelRequests = 2, 2
+					if c.Op == "full-queue" {
+						cfg.ReceivedMessageQueueSize = 1
+						cfg.Handler = handler
+					}
+					cc = client.NewConnWithOpts(session, &cfg)
+					vrt.Lib("conn-run", func() { _ = cc.Run(); runDone = true })
+				}
+				inject := func(raw []byte) {
+					if c.DTLS {
+						dw.DSt.In = append(dw.DSt.In, append([]byte{}, raw...))
+					} else {
+						pc.In = append(pc.In, coapNet.VerifPacket{Data: append([]byte{}, raw...), From: raddr})
 					}
 				}
-				cc = client.NewConnWithOpts(session, &cfg)
+				pendingIn := func() int {
+					if c.DTLS {
+						return len(dw.DSt.In)
+					}
+					return len(pc.In)
+				}
 				cc.AddOnClose(func() { onClose++ })
 				cc.AddOnClose(func() { onClose++ })
-				vrt.Lib("conn-run", func() { _ = cc.Run(); runDone = true })
 				ctx, cancel := context.WithCancel(context.Background())
 				vrt.App("op", func() {
 					var err error
@@ -102,9 +136,9 @@ func udpSessionScenario(c ucfg) *mcx.Scenario {
 							if errM != nil {
 								panic(errM)
 							}
-							pc.In = append(pc.In, coapNet.VerifPacket{Data: append([]byte{}, raw...), From: raddr})
+							inject(raw)
 						}
-						vrt.WaitUntil("reader loop parked on the full queue", func() bool { return len(pc.In) == 0 && handlerRuns == 1 })
+						vrt.WaitUntil("reader loop parked on the full queue", func() bool { return pendingIn() == 0 && handlerRuns == 1 })
 						vrt.Quiesce("full queue")
 						for i := 0; i < 2; i++ {
 							vrt.App(fmt.Sprintf("closer%d", i), func() { _ = cc.Close() })
@@ -128,7 +162,13 @@ func udpSessionScenario(c ucfg) *mcx.Scenario {
 						vrt.App(fmt.Sprintf("closer%d", i), func() { _ = cc.Close() })
 					}
 				case "read-error":
-					vrt.App("socket", func() { pc.ReadErr = fmt.Errorf("recvmsg: network is down") })
+					vrt.App("socket", func() {
+						if c.DTLS {
+							dw.DSt.ReadErr = fmt.Errorf("read: connection reset")
+						} else {
+							pc.ReadErr = fmt.Errorf("recvmsg: network is down")
+						}
+					})
 				}
 				_ = codes.Empty
 			})
@@ -144,9 +184,9 @@ func udpSessionScenario(c ucfg) *mcx.Scenario {
 					select {
 					case <-cc.Done():
 					default:
-						fail("udp-session/done-not-closed", "Done() is not closed although the connection was closed (Run returned=%v)", runDone)
+						fail("udp-session/done-not-closed", "Done() is not closed although the connection was closed (Run returned=%v)", runDoneF())
 					}
-					if !runDone {
+					if !runDoneF() {
 						fail("udp-session/run-did-not-return", "Session.Run did not return after the connection was closed")
 					}
 					if onClose != 2 {
@@ -164,9 +204,11 @@ func udpSessionScenario(c ucfg) *mcx.Scenario {
 
 func addUDPSessionScenarios(r *ev.Run, scs *[]*mcx.Scenario) {
 	*scs = append(*scs, udpSessionScenario(ucfg{Op: "full-queue", Intr: "close2", Preempt: ev.Pick(r, 1, 2)}))
+	*scs = append(*scs, udpSessionScenario(ucfg{DTLS: true, Op: "full-queue", Intr: "close2", Preempt: ev.Pick(r, 1, 2)}))
 	for _, op := range []string{"do", "observe", "ping", "idle"} {
 		for _, in := range []string{"cancel", "close2", "read-error"} {
 			*scs = append(*scs, udpSessionScenario(ucfg{Op: op, Intr: in, Preempt: ev.Pick(r, 1, 2)}))
+			*scs = append(*scs, udpSessionScenario(ucfg{DTLS: true, Op: op, Intr: in, Preempt: ev.Pick(r, 1, 2)}))
 		}
 	}
 }
